@@ -110,6 +110,48 @@ CHECKS = {
         "modules are dependency-closed; per-kind multiset comparison (ordered equality recorded)",
         "DESIGN.md 3/C20",
     ),
+    "C03": (
+        "exploration",
+        "compiler sanitizers + runtime monitoring: generated C++ compiled with clang++ -fsanitize=address,undefined, driven by a generic stdin harness; differential oracle against the reference codec and the Python codec",
+        "every generated header set compiled as C++17; StaticSchema::EncodeJson gave the canonical bytes and DecodeJson gave back the value on every case; no sanitizer report.",
+        "trusted base: vf/ref/codec.py, vendored nlohmann/json, clang++ 14; finite floats only (JSON)",
+        "DESIGN.md 3/C03",
+    ),
+    "C06": (
+        "exploration",
+        "compiler sanitizers + runtime monitoring: generated C compiled with gcc -fsanitize=address,undefined (minus alignment) plus a harness derived from the generated headers; oracle = reference packing at the real layout",
+        "the generated C compiled, encoded every value to the expected id/DLC/data and decoded it back, with no sanitizer report.",
+        "flat CAN schemas of the advertised subset; floats compared numerically on decode (-0.0 == 0.0)",
+        "DESIGN.md 3/C06",
+    ),
+    "C13": (
+        "exploration",
+        "compiler sanitizers + runtime monitoring: static vs reflection-loaded codec in one sanitized harness process, reference codec arbitrates; known finding matched by a defect model",
+        "DynamicSchema decoded every canonical byte string like StaticSchema and encoded like it on every struct made of whole-byte leaves; elsewhere its bytes matched the recorded defect model exactly.",
+        "reflection binary produced like 'fcp encode'; known finding cpp-dynamic-encode-unpacked",
+        "DESIGN.md 3/C13",
+    ),
+    "C15": (
+        "exploration",
+        "runtime monitoring (metamorphic): declaration-permuted twins observed through the layout, DBC, Python codec, sanitized generated C and sanitized generated C++",
+        "permuting field declarations (ids kept) changed no back end's output, and all agreed with the id-ordered reference.",
+        "values matched by field name; known finding cpp-dynamic-encode-unpacked applies to the dynamic C++ encoder",
+        "DESIGN.md 3/C15",
+    ),
+    "C18": (
+        "exploration",
+        "compiler sanitizers + runtime monitoring: CAN wrapper commands of the generic sanitized harness vs reference codec + binding table; probe frames with non-matching (id, bus)",
+        "every frame carried the binding's id, bus and canonical payload; decoding returned name and value; non-matching frames were unknown; static and dynamic agreed; no sanitizer report.",
+        "bindings named after their struct, bus names of 1-4 characters; known finding cpp-dynamic-encode-unpacked",
+        "DESIGN.md 3/C18",
+    ),
+    "C19": (
+        "exploration",
+        "compiler sanitizers + runtime monitoring: send-callback event log of forked scheduler histories checked against a reference automaton (bounded-exhaustive histories + random)",
+        "on every history the generated scheduler sent exactly the frames the reference automaton sends, with the encoding of the current values.",
+        "histories judged only when wrapping and true-time elapsed readings coincide",
+        "DESIGN.md 3/C19",
+    ),
 }
 
 NOT_YET = "check not built yet in this round (see DESIGN.md section 3 for the planned monitor)"
